@@ -453,6 +453,23 @@ class Parser:
                 return ('while', c, body, line)
             if tok.text == 'for':
                 self.next(); self.expect('(')
+                # range-based for over a braced list:  for (T x : {a, b, c}) stmt
+                save = self.i
+                if self.is_type_start():
+                    try:
+                        rty = self.parse_type()
+                        if self.peek().kind == 'id' and self.at(':', 1) and self.at('{', 2):
+                            rname = self.ident(); self.next(); self.next()
+                            elems = []
+                            while not self.at('}'):
+                                elems.append(self.parse_assign())
+                                if not self.accept(','): break
+                            self.expect('}'); self.expect(')')
+                            body = self.parse_stmt()
+                            return ('rangefor', rty, rname, elems, body, line)
+                    except ParseError:
+                        pass
+                    self.i = save
                 init = None
                 if not self.at(';'):
                     init = self.try_decl()
